@@ -5,9 +5,16 @@ with a Python copy of the Coq renderer (coq/Model/C15*.v `render_*`), serialise
 the tokens to text / HDF5 (the shim), load the file with `orix.io.load`, and
 report (a) the abstract file, the tokens and the observed map for the Coq
 correspondence, (b) the verdicts of the property oracle (an independent
-field-by-field expectation computed here from the abstract file)."""
+field-by-field expectation computed here from the abstract file).
+
+Audit strata (after the base plan, `gen_extra`): formulas on some phases only / of several words, map origin
+!= (0, 0), every point not indexed, grids up to 13 x 17, one-point scans (oracle only); and for every file a
+serialisation / entry-point VARIANT that must give the same map as the primary file (`run_variant`: CRLF, no final
+newline, blank tail, padded data lines, permuted .ctf header fields, upper-case extension, pathlib.Path, Manufacturer
+as one-element array / lower-case key, no SEM group, h5py keyword, EMsoft default `refined`, deprecated loaders)."""
 import math
 import os
+import pathlib
 import shutil
 import tempfile
 import warnings
@@ -30,6 +37,10 @@ cases, fails, strata = [], [], {}
 
 def st(k):
     strata[k] = strata.get(k, 0) + 1
+
+
+def fail(sig, what, replay):
+    fails.append({"sig": sig, "what": what, "replay": replay})
 
 
 # ------------------------------------------------------------ Coq term JSON
@@ -111,7 +122,12 @@ def rand_euler_deg():
     return [round(R.uniform(0, 360), 4), round(R.uniform(0, 180), 4), round(R.uniform(0, 360), 4)]
 
 
+GRID = None         # audit strata: forced (nrows, ncols) of the next generated file ("big", "one")
+
+
 def rand_grid():
+    if GRID is not None:
+        return GRID[0], GRID[1], R.choice(STEPS), R.choice(STEPS)
     nr = R.choice([1, 2, 2, 3, 3, 4, 5])
     nc = R.choice([1, 2, 3, 3, 4, 5, 7])
     if nr * nc == 1:            # one-point maps: CrystalMap itself is degenerate (C13 territory)
@@ -141,6 +157,8 @@ def gen_ang(vendor, mode):
     """mode: 'ok' | 'cols' (unexpected column count) | 'sym62' | 'zero' (single phase, data id 0)"""
     nr, nc, dx, dy = rand_grid()
     nph = 1 if vendor == "astar" or mode == "zero" else R.choice([1, 2, 2, 3])
+    if mode == "formula":
+        nph = R.choice([2, 3])
     ids = list(range(1, nph + 1))
     if vendor == "orix" or R.random() < 0.2:
         ids = ids[::-1]
@@ -262,6 +280,8 @@ def ang_text(tk):
         elif k == "ALLat":
             out.append("# LatticeConstants" + ws() + ws().join("%.3f" % x if float("%.3f" % x) == x else repr(x) for x in v))
         else:
+            if k == "ALFormula" and v and " " in v[0]:      # multi-word formula: one token, any whitespace inside
+                v = v[0].split(" ")
             out.append("# " + keys[k] + (ws() + ws().join(v) if v else R.choice(["", "  ", " \t"])))
     return "\n".join(out) + "\n" + "\n".join(row_text(r) for r in rows) + "\n"
 
@@ -466,8 +486,9 @@ B_PROP = {"PCX": "PCX", "PCY": "PCY", "DD": "DD", "MAD": "MAD", "MADPhase": "MAD
           "X BEAM": "XBEAM", "Y BEAM": "YBEAM", "X SAMPLE": "XSAMPLE", "Y SAMPLE": "YSAMPLE", "Z SAMPLE": "ZSAMPLE"}
 
 
-def gen_bruker(mode):
-    """mode: 'ok' (file order = grid order) | 'cols' (shuffled within rows) | 'rows' (rows shuffled too) | 'noroi'"""
+def gen_bruker(mode, label=None):
+    """mode: 'ok' (file order = grid order) | 'cols' (shuffled within rows) | 'rows' (rows shuffled too) | 'noroi';
+    label: name of the stratum if it is not the mode (audit strata)"""
     nr, nc, dx, dy = rand_grid()
     if mode == "rows":
         nr = max(nr, 2)
@@ -492,7 +513,7 @@ def gen_bruker(mode):
         ni = R.random() < 0.15
         pts.append({"pid": 0 if ni else R.choice(used), "eu": [0.0, 0.0, 0.0] if ni else rand_euler_deg(),
                     "vals": [round(R.uniform(0, 1), 4) if j < 4 or j == 7 else float(R.randint(0, 12)) for j in range(len(B_FREE))]})
-    return {"fmt": "bruker", "vendor": "bruker", "mode": mode, "nrows": nr, "ncols": nc, "dx": dx, "dy": dy,
+    return {"fmt": "bruker", "vendor": "bruker", "mode": label or mode, "nrows": nr, "ncols": nc, "dx": dx, "dy": dy,
             "x0": R.choice([0.0, 12.5, -3.0]), "y0": R.choice([0.0, 7.25, -1.5]), "roi": mode != "noroi",
             "r0": R.choice([0, 0, 5]), "c0": R.choice([0, 0, 11]), "order": order, "phases": phases, "pts": pts,
             "sem_in_ebsd": R.random() < 0.5, "sem_prefix": R.random() < 0.3}
@@ -529,19 +550,39 @@ def bruker_tokens_coq(t):
              [Tp(i, C("mkBP", p["name"], p["it"], fl(p["lat"]))) for i, p in t["phases"]])
 
 
-def bruker_write(t, f, path):
+def write_manufacturer(h, names, variant):
+    """top-level Manufacturer / Version datasets; variants: one-element array of fixed-length bytes (as EMsoft and
+    kikuchipy write them), lower-case dataset names (the reader compares `key.lower()`)"""
+    man = R.choice(names)
+    man = man.encode() if isinstance(man, str) else man
+    lower = variant == "man-key-lower"
+    if variant == "man-array":
+        h.create_dataset("Manufacturer", data=np.array([man], dtype=np.dtype("S")))
+        h.create_dataset("Version", data=np.array([b"5.0"], dtype=np.dtype("S")))
+    else:
+        h.create_dataset("manufacturer" if lower else "Manufacturer", data=man)
+        h.create_dataset("version" if lower else "Version", data=b"Esprit 2.X")
+
+
+def bruker_write(t, f, path, variant=None):
     with h5py.File(path, "w") as h:
-        h.create_dataset("Manufacturer", data=R.choice([b"Bruker Nano", b"Bruker"]))
-        h.create_dataset("Version", data=b"Esprit 2.X")
+        if variant in ("man-array", "man-key-lower"):
+            write_manufacturer(h, [b"Bruker Nano", b"Bruker"], variant)
+        else:
+            h.create_dataset("Manufacturer", data=R.choice([b"Bruker Nano", b"Bruker"]))
+            h.create_dataset("Version", data=b"Esprit 2.X")
         scan = R.choice(["Scan 1", "Scan 0"])
         eb = h.create_group(scan + "/EBSD")
         dg, hg = eb.create_group("Data"), eb.create_group("Header")
-        sem = eb.create_group("SEM") if f["sem_in_ebsd"] else h[scan].create_group("SEM")
-        if t["iy"] is not None:
-            pre = "SEM " if f["sem_prefix"] else ""
-            sem.create_dataset(pre + "IY", data=np.array(t["iy"], dtype=np.int32))
-            sem.create_dataset(pre + "IX", data=np.array(t["ix"], dtype=np.int32))
-        sem.create_dataset("SEM ZOffset", data=0.0)
+        if variant == "no-sem-group":       # no SEM group at all (only without ROI index datasets)
+            assert t["iy"] is None
+        else:
+            sem = eb.create_group("SEM") if f["sem_in_ebsd"] else h[scan].create_group("SEM")
+            if t["iy"] is not None:
+                pre = "SEM " if f["sem_prefix"] else ""
+                sem.create_dataset(pre + "IY", data=np.array(t["iy"], dtype=np.int32))
+                sem.create_dataset(pre + "IX", data=np.array(t["ix"], dtype=np.int32))
+            sem.create_dataset("SEM ZOffset", data=0.0)
         hg.create_dataset("NROWS", data=t["nrows"], dtype=np.int32)
         hg.create_dataset("NCOLS", data=t["ncols"], dtype=np.int32)
         hg.create_dataset("Grid Type", data=t["grid"].encode())
@@ -591,7 +632,7 @@ E_PG = [("Monoclinic b (C2h) [2/m]", "2/m"), ("Cubic (Oh) [m-3m]", "m-3m"), ("He
         ("Cubic (O) [432]", "432"), ("Trigonal (D3d) [-3m]", "-3m"), ("Orthorhombic (D2h) [mmm]", "mmm")]
 
 
-def gen_emsoft(refined):
+def gen_emsoft(refined, label=None):
     nr, nc, dx, dy = rand_grid()
     n = nr * nc
     nnk = R.choice([1, 2, 3, 5])
@@ -611,7 +652,7 @@ def gen_emsoft(refined):
         props.append(("RefinedDotProducts", [n], [round(R.uniform(0, 1), 4) for _ in range(n)]))
     pgd, pg = R.choice(E_PG)
     name = R.choice(["fe4al13", "Ni", "austenite", "Ti_alpha"])
-    return {"fmt": "emsoft", "vendor": "emsoft_h5", "mode": "refined" if refined else "topmatch", "nrows": nr,
+    return {"fmt": "emsoft", "vendor": "emsoft_h5", "mode": (label + "-" if label else "") + ("refined" if refined else "topmatch"), "nrows": nr,
             "ncols": nc, "dx": dx, "dy": dy, "nnk": nnk,
             "dict": [rand_euler_deg() for _ in range(nd)], "pad_dict": [rand_euler_deg() for _ in range(R.choice([0, 2]))],
             "top": [[R.randint(1, nd) for _ in range(nnk)] for _ in range(n)],
@@ -644,10 +685,13 @@ def emsoft_tokens_coq(t):
              [Tp(k, Tp([Nat(s) for s in sh], fl(v))) for k, sh, v in t["props"]], t["name"], t["pg"], fl(t["lat"]))
 
 
-def emsoft_write(t, f, path):
+def emsoft_write(t, f, path, variant=None):
     with h5py.File(path, "w") as h:
-        h.create_dataset("Manufacturer", data=R.choice(["EMEBSDDictionaryIndexing.f90", "EMEBSD"]))
-        h.create_dataset("Version", data="5.0")
+        if variant in ("man-array", "man-key-lower"):
+            write_manufacturer(h, ["EMEBSDDictionaryIndexing.f90", "EMEBSD"], variant)
+        else:
+            h.create_dataset("Manufacturer", data=R.choice(["EMEBSDDictionaryIndexing.f90", "EMEBSD"]))
+            h.create_dataset("Version", data="5.0")
         eb = h.create_group("Scan 1/EBSD")
         dg, hg = eb.create_group("Data"), eb.create_group("Header")
         for name, v, dt in [("nRows", t["nrows"], np.int32), ("nColumns", t["ncols"], np.int32),
@@ -759,6 +803,8 @@ def oracle(f, exp, obs):
             cause = "laue=10"
         if f["fmt"] == "ctf" and f["vendor"] == "astar" and (f["nrows"] == 1 or f["ncols"] == 1):
             cause = "single-line-map"
+        if f["nrows"] * f["ncols"] == 1:        # a scan of one point: one data line / one-element datasets
+            cause = "one-point-map"
         return [(f"{tag}:raises:{cause}", f"loading a valid {tag} file raises {obs['err']}: {obs['msg']}")]
     n = f["nrows"] * f["ncols"]
 
@@ -768,7 +814,7 @@ def oracle(f, exp, obs):
         bad("size", f"map has {obs['size']} points, file has {n}")
         return out
     shape = [f["nrows"], f["ncols"]]
-    shape = [s for s in shape if s > 1] or [1]
+    shape = [s for s in shape if s > 1] or ([] if n == 1 else [1])      # a one-point CrystalMap has ndim 0
     if obs["shape"] != shape:
         bad("grid", f"map shape {obs['shape']} != file grid {shape}", rows_stratum(f))
     if f["ncols"] > 1 and not close(obs["dx"], f["dx"], 1e-6):
@@ -839,6 +885,118 @@ FMT = {
 }
 
 
+# ------------------------------------------------- secondary entry points / serialisation variants (audit strata)
+# Every generated file is written a second time in a VARIANT that the format allows and that must not change the
+# loaded map; the observation is compared with the one of the primary file (which the oracle checks field by field).
+TEXT_VARIANTS = ["crlf", "upper-ext", "no-final-newline", "pathlib", "blank-tail"]
+H5_VARIANTS = ["upper-ext", "man-array", "pathlib", "man-key-lower", "kw-mode-r"]
+VCOUNT = {}
+
+
+def ctf_permute_header(text):
+    """same header fields in another order: XCells/YCells and XStep/YStep swapped, JobMode after AcqE3"""
+    lines = text.split("\n")
+    n = next(i for i, l in enumerate(lines) if l.startswith("Phases"))
+    head = lines[:n]
+    pos = {l.split("\t")[0]: i for i, l in enumerate(head)}
+    for a, b in (("XCells", "YCells"), ("XStep", "YStep")):
+        head[pos[a]], head[pos[b]] = head[pos[b]], head[pos[a]]
+    job = head.pop(pos["JobMode"])
+    head.insert([i for i, l in enumerate(head) if l.startswith("AcqE3")][0] + 1, job)
+    return "\n".join(head + lines[n:])
+
+
+def variants_of(f, text):
+    """-> (variants always run for this file, variants of which one is run per file in turn: per vendor for the
+    text formats; the HDF5 files are few and cheap, they get every variant)"""
+    fmt = f["fmt"]
+    one = f["nrows"] * f["ncols"] == 1      # the deprecated loaders are outside the property: not on one-point files
+    if fmt == "ang":
+        return [], TEXT_VARIANTS + ["trailing-ws"] + ([] if one else ["loadang"])
+    if fmt == "ctf":
+        always = ["hdr-order"] if f["vendor"] == "astar" else []
+        lines = text.split("\n")
+        if not one and len(lines) > 17 and lines[16].startswith("Phase\tX\tY"):
+            always.append("loadctf")        # the deprecated loader assumes a header of exactly 17 lines
+        return always, TEXT_VARIANTS + ([] if f["vendor"] == "astar" else ["hdr-order"])
+    if fmt == "bruker":
+        return H5_VARIANTS + (["no-sem-group"] if not f["roi"] else []), []
+    return H5_VARIANTS + (["default-kwargs"] if not f["use_refined"] else []), []
+
+
+def diff_obs(a, b):
+    """names of the fields in which two observations differ"""
+    if "err" in a or "err" in b:
+        return [] if a.get("err") == b.get("err") else ["raises " + str(b.get("err")) + ": " + str(b.get("msg"))]
+    bad = []
+    for k2 in a:
+        if k2 in ("q", "x", "y", "matrix", "dx", "dy"):
+            if not close(a[k2], b[k2], 1e-12):
+                bad.append(k2)
+        elif k2 == "props":
+            if [p[:2] for p in a[k2]] != [p[:2] for p in b[k2]] or \
+                    not all(close(u[2], v[2], 1e-12) for u, v in zip(a[k2], b[k2])):
+                bad.append(k2)
+        elif a[k2] != b[k2]:
+            bad.append(k2)
+    return bad
+
+
+def run_variant(f, tk, text, kwargs, obs, k, v):
+    """write variant v of the file, load it, compare with the primary observation `obs`"""
+    tag = f"{f['fmt']}:{f['vendor']}"
+    ext = FMT[f["fmt"]][4]
+    ext = R.choice(["h5", "hdf5", "h5ebsd"]) if ext == "h5" else ext
+    if v == "upper-ext":
+        ext = ext.upper()
+    path = os.path.join(TMP, f"v{k}.{ext}")
+    kw = dict(kwargs) if kwargs else None
+    if text is not None:
+        t = text
+        if v == "crlf":                     # vendor programs run on Windows
+            t = t.replace("\n", "\r\n")
+        elif v == "no-final-newline":
+            t = t.rstrip("\n")
+        elif v == "blank-tail":
+            t = t + "\n\n"
+        elif v == "trailing-ws":            # fixed-width padded data lines
+            head = [l for l in t.split("\n") if l.startswith("#")]
+            t = "\n".join(head + [l + R.choice([" ", "   ", "\t"]) for l in t.split("\n")[len(head):] if l]) + "\n"
+        elif v == "hdr-order":
+            t = ctf_permute_header(t)
+        with open(path, "w", newline="") as fh:
+            fh.write(t)
+    elif f["fmt"] == "bruker":
+        bruker_write(tk, f, path, v)
+    else:
+        emsoft_write(tk, f, path, v)
+    if v == "kw-mode-r":                    # **kwargs of the h5ebsd readers go to h5py.File
+        kw = dict(kw or {}, mode="r")
+    if v == "default-kwargs":               # EMsoft: `refined` defaults to False
+        kw = None
+    st(f"variant/{f['fmt']}/{v}")
+    try:
+        if v in ("loadang", "loadctf"):     # deprecated loaders of orix.io: rotations only (all rows of the file)
+            with warnings.catch_warnings():
+                warnings.simplefilter("ignore")
+                rot = io.loadang(path) if v == "loadang" else io.loadctf(path)
+            eu = [p["eu"] if v == "loadang" else [math.radians(a) for a in p["eu"]] for p in f["pts"]]
+            if not close(rot.to_matrix().reshape(-1, 9), [bunge(e) for e in eu], 1e-7):
+                fail(f"{tag}:variant:{v}", f"{tag}: orix.io.{v}() does not return the file's Euler angles (file unit) "
+                     "as Bunge lab->crystal rotations", {"file": f, "variant": v})
+            return
+        o2 = observe(pathlib.Path(path) if v == "pathlib" else path, kw)
+    except Exception as e:  # noqa
+        o2 = {"err": type(e).__name__, "msg": str(e)[:200]}
+    finally:
+        if os.path.exists(path):
+            os.remove(path)
+    bad = diff_obs(obs, o2)
+    if bad:
+        fail(f"{tag}:variant:{v}", f"{tag}: the same file written/loaded as variant '{v}' gives another map than the "
+             f"primary file: {', '.join(bad)}", {"file": f, "variant": v})
+
+
 def run_one(f, k):
     to_coq, to_tok, tok_coq, expected, ext = FMT[f["fmt"]]
     tk = to_tok(f)
@@ -846,10 +1004,13 @@ def run_one(f, k):
     path = os.path.join(TMP, f"c{k}.{ext}")
     extra = {}
     kwargs = None
+    text = None
     if f["fmt"] == "ang":
-        open(path, "w").write(ang_text(tk))
+        text = ang_text(tk)
+        open(path, "w").write(text)
     elif f["fmt"] == "ctf":
-        open(path, "w").write(ctf_text(tk, f["comma"]))
+        text = ctf_text(tk, f["comma"])
+        open(path, "w").write(text)
     elif f["fmt"] == "bruker":
         bruker_write(tk, f, path)
     else:
@@ -861,10 +1022,18 @@ def run_one(f, k):
     exp = expected(f)
     vs = oracle(f, exp, obs)
     for sig, what in vs:
-        fails.append({"sig": sig, "what": what, "replay": {"file": f}})
-    tkc = tok_coq(tk)
+        fail(sig, what, {"file": f})
     strat = f"{f['fmt']}/{f['vendor']}/{f['mode']}"
     st(strat)
+    if "err" not in obs:
+        always, cycled = variants_of(f, text)
+        key = (f["fmt"], f["vendor"])
+        VCOUNT[key] = VCOUNT.get(key, -1) + 1
+        for v in always + (cycled if ONLY or not cycled else [cycled[VCOUNT[key] % len(cycled)]]):
+            run_variant(f, tk, text, kwargs, obs, k, v)
+    if f.get("oracle_only"):        # one-point maps: CrystalMap / HDF5 unwrapping of one element is not in the model
+        return
+    tkc = tok_coq(tk)
     obs_small = {k2: v for k2, v in obs.items() if k2 not in ("matrix", "msg")}
     cases.append({"fmt": f["fmt"], "stratum": strat, "file": to_coq(f), "tokens": tkc, "obs": obs_small,
                   "extra": extra, "grid": [f["nrows"], f["ncols"]], "abstract": f})
@@ -895,6 +1064,68 @@ def gen_all(n):
             files.append(gen_bruker(mode))
         else:
             files.append(gen_emsoft(mode))
+    return files
+
+
+# ------------------------------------------------------------ audit strata (input classes the base plan never draws)
+ORIGINS = [(3.5, 1.25), (100.0, 0.0), (0.0, 42.5), (12.75, 7.0)]
+BIG = [(9, 12), (11, 17), (13, 10)]
+EXTRA_PLAN = [
+    # .ang: formulas on some phases only / multi-word formulas; map origin != (0, 0); every point not indexed;
+    # grids beyond 5 x 7; scans of one point
+    ("ang", "tsl", "formula"), ("ang", "emsoft", "formula"), ("ang", "orix", "formula"),
+    ("ang", "tsl", "origin"), ("ang", "orix", "origin"), ("ang", "astar", "origin"), ("ang", "emsoft", "origin"),
+    ("ang", "tsl", "allni"), ("ang", "orix", "allni"),
+    ("ang", "tsl", "big"), ("ang", "astar", "big"),
+    ("ang", "tsl", "one"), ("ang", "emsoft", "one"), ("ang", "astar", "one"), ("ang", "orix", "one"),
+    ("ctf", "oxford", "origin"), ("ctf", "mtex", "origin"), ("ctf", "emsoft", "origin"),
+    ("ctf", "oxford", "allni"), ("ctf", "astar", "allni"),
+    ("ctf", "bruker", "big"), ("ctf", "astar", "big"),
+    ("ctf", "oxford", "one"), ("ctf", "bruker", "one"), ("ctf", "emsoft", "one"), ("ctf", "astar", "one"),
+    ("ctf", "mtex", "one"),
+    ("bruker", "rows", "big"), ("bruker", "cols", "allni"), ("bruker", "noroi", "allni"),
+    ("bruker", "ok", "one"), ("bruker", "noroi", "one"),
+    ("emsoft", False, "big"), ("emsoft", True, "big"), ("emsoft", False, "one"), ("emsoft", True, "one"),
+]
+
+
+def gen_extra(cycle):
+    """one pass over EXTRA_PLAN; `cycle` rotates the sub-variants so that each meets each vendor"""
+    global GRID
+    files = []
+    for j, (fmt, v, mode) in enumerate(EXTRA_PLAN):
+        sub = j + cycle
+        GRID = BIG[sub % len(BIG)] if mode == "big" else ((1, 1) if mode == "one" else None)
+        if fmt == "ang":
+            f = gen_ang(v, mode)
+        elif fmt == "ctf":
+            f = gen_ctf(v, mode)
+        elif fmt == "bruker":
+            f = gen_bruker(v, label=mode + "-" + v)
+        else:
+            f = gen_emsoft(v, label=mode)
+        GRID = None
+        if mode == "formula":
+            ph = f["phases"]
+            kind = sub % 3
+            for k, p in enumerate(ph):
+                if kind == 0:       # all phases have a formula of several words -> the formulas are the names
+                    p["formula"] = " ".join(R.choice(WORDS).replace("/", "") + "F" + str(k) for _ in range(R.choice([2, 3])))
+                else:               # first / last phase without formula -> the material names are the names
+                    p["formula"] = None if k == (0 if kind == 1 else len(ph) - 1) else R.choice(WORDS) + "F" + str(k)
+        elif mode == "origin":
+            ox, oy = ORIGINS[sub % len(ORIGINS)]
+            for p in f["pts"]:
+                p["x"], p["y"] = p["x"] + ox, p["y"] + oy
+        elif mode == "allni":
+            for p in f["pts"]:
+                if fmt == "ang":
+                    p["c"], p["eu"] = -1.0, [4 * math.pi] * 3
+                else:
+                    p["pid"] = 0
+        elif mode == "one":
+            f["oracle_only"] = True
+        files.append(f)
     return files
 
 
@@ -934,7 +1165,12 @@ def table_checks():
 
 
 try:
-    files = ONLY if ONLY else gen_all(N)
+    if ONLY:
+        files = ONLY
+    else:
+        files = gen_all(N)
+        for cycle in range(max(1, N // 130)):
+            files += gen_extra(cycle)
     for k, f in enumerate(files):
         run_one(f, k)
     tables = table_checks()
